@@ -114,6 +114,11 @@ def nl_velo(d, j, h, c=3.0):
     return -c * vj * np.abs(vj)
 
 
+def nl_time(d, j, h, w=9.0, kt=25.0):
+    """explicitly time dependent (uses the step number it is called with, not only d[:, j])"""
+    return np.array([-kt * math.cos(w * j * h) * d[0, j] + 0.3 * j * h])
+
+
 def nonlin_sets(n):
     T1 = np.zeros((n, 1))
     T1[0, 0] = 1.0
@@ -124,6 +129,7 @@ def nonlin_sets(n):
     if n >= 2:
         out["two+args"] = {"cub": (nl_cubic, T1, {"kc": 20.0}), "gap": (nl_gap, T2, {"gap": 0.005, "kg": 150.0})}
     out["velocity"] = {"vel": (nl_velo, np.eye(n), {"c": 2.0})}
+    out["time"] = {"tim": (nl_time, T1), "cub": (nl_cubic, T1, {"kc": 10.0})}
     return out
 
 
@@ -175,7 +181,7 @@ def check_newmark(sysname, M, B, K, h, fname, icname, rfname, nlname, tier, res)
     n = 3
     F = nm_forces(tier)[fname]
     d0, v0 = nm_ics(tier)[icname]
-    rf = {"norf": [], "rflast": [2], "rfmid": [1]}[rfname]
+    rf = {"norf": [], "rflast": [2], "rfmid": [1], "rf2": [1, 2], "rf2rev": [2, 1], "rf2split": [0, 2], "rf2splitrev": [2, 0]}[rfname]
     if rf and (sysname.startswith("msingular") or nlname != "none"):
         return msgs, False
     if rf and ("full" in sysname):
@@ -481,6 +487,45 @@ def check_convergence(tier, res):
 
 
 # ------------------------------------------------------------------ driver
+def check_rf_orders(res):
+    """residual-flexibility DOF listed in ANY order (contiguous blocks in non-ascending order, split blocks): every
+    listing gives the result of the sorted listing, and the rf rows solve K d = F"""
+    from pyyeti import ode
+
+    msgs = []
+    m = np.array([1.0, 2.0, 1.0, 1.0, 1.0, 0.5])
+    k = np.array([40.0, 250.0, 4.0e5, 9.0e5, 2.5e6, 900.0])
+    b = np.array([0.8, 2.5, 0.0, 0.0, 0.0, 3.0])
+    F = np.cos(np.arange(6)[:, None] * 0.7 + np.arange(7)[None, :] * 0.9) * np.array([1.0, 2.0, 300.0, -500.0, 800.0, 1.5])[:, None]
+    blocks = [[2, 3, 4], [2, 3], [3, 4], [2, 4]]
+    makers = {"SolveNewmark": lambda rf: ode.SolveNewmark(m, b, k, 0.01, rf=rf), "SolveCDF/o0": lambda rf: ode.SolveCDF(m, b, k, 0.01, rf=rf, order=0),
+              "SolveCDF/o1": lambda rf: ode.SolveCDF(m, b, k, 0.01, rf=rf, order=1), "SolveUnc/o1": lambda rf: ode.SolveUnc(m, b, k, 0.01, rf=rf, order=1),
+              "SolveExp2/o1": lambda rf: ode.SolveExp2(m, b, k, 0.01, rf=rf, order=1)}
+    for name, mk in makers.items():
+        for blk in blocks:
+            try:
+                base = mk(list(blk)).tsolve(F.copy())
+            except Exception as e:  # noqa
+                msgs.append("%s(rf=%s) raised %r" % (name, blk, e))
+                continue
+            if not np.allclose(base.d[blk] * k[blk, None], F[blk], rtol=1e-12, atol=0):
+                msgs.append("%s(rf=%s): residual-flexibility rows do not satisfy K d = F" % (name, blk))
+            for perm in itertools.permutations(blk):
+                if list(perm) == list(blk):
+                    continue
+                for form in ("list", "array"):
+                    rf = list(perm) if form == "list" else np.array(perm)
+                    res.ev("rf-order/%s/n%d" % (name, len(blk)))
+                    try:
+                        sol = mk(rf).tsolve(F.copy())
+                    except Exception as e:  # noqa
+                        msgs.append("%s(rf=%s as %s) raised %r" % (name, list(perm), form, e))
+                        continue
+                    if not all(np.array_equal(getattr(sol, nm), getattr(base, nm)) for nm in "dva"):
+                        msgs.append("%s with rf listed as %s gives a different response than rf=%s (max |d| diff %.3g)" % (name, list(perm), blk, np.abs(sol.d - base.d).max()))
+    return msgs
+
+
 def check_forms(res):
     """integer-typed / list / Fortran-ordered / strided force histories holding the same values give the response of the
     float64 C-ordered history bit for bit (Newmark with and without nonlinear terms and rf modes, CDF both orders), and
@@ -544,6 +589,7 @@ def shards(tier, seed):
         out.append(dict(part="cdf", sys=ci, hs=hsv, tier=tier))
     out.append(dict(part="conv", tier=tier))
     out.append(dict(part="forms", tier=tier))
+    out.append(dict(part="rforders", tier=tier))
     r = seed % len(out)
     return out[r:] + out[:r]
 
@@ -553,7 +599,7 @@ def run_shard(sh):
     tier = sh["tier"]
     if sh["part"] == "newmark":
         name, M, B, K = nm_systems()[sh["sys"]]
-        for h, fname, icname, rfname, nlname in itertools.product(sh["hs"], nm_forces(tier), nm_ics(tier), ("norf", "rflast", "rfmid"),
+        for h, fname, icname, rfname, nlname in itertools.product(sh["hs"], nm_forces(tier), nm_ics(tier), ("norf", "rflast", "rfmid", "rf2", "rf2rev", "rf2split", "rf2splitrev"),
                                                                    nonlin_sets(3)):
             msgs, ran = check_newmark(name, M, B, K, h, fname, icname, rfname, nlname, tier, res)
             if not ran:
@@ -574,6 +620,10 @@ def run_shard(sh):
             for msg in msgs:
                 res.viol(case, msg, kind="cdf-" + " ".join(msg.split()[:3]))
         res.sample(case)
+    elif sh["part"] == "rforders":
+        for m in check_rf_orders(res):
+            res.viol(dict(part="rforders", tier=tier), m, kind="rforders-" + m.split("(")[0].split(" with")[0])
+        res.sample(dict(part="rforders"))
     elif sh["part"] == "forms":
         for m in check_forms(res):
             res.viol(dict(part="forms", tier=tier), m, kind="forms-" + m.split(":")[0] + m.split(":")[1][:24])
@@ -596,4 +646,6 @@ def replay(case):
         return check_cdf(layout, m, B, k, rf, case["h"], case["order"], case["force"], case["ic"], tier, res)
     if case["part"] == "forms":
         return check_forms(res)
+    if case["part"] == "rforders":
+        return check_rf_orders(res)
     return [m for c, m in check_convergence(tier, res) if all(c[k] == case.get(k) for k in c)]
